@@ -3,7 +3,7 @@ import GqlModel.Validate.Engine
 namespace Gql.Validate.Rules
 open Gql Gql.Validate
 
-def fragmentsOnCompositeTypesStep (s : Schema) (_ : QueryDoc) (e : Event) : List RErr :=
+def fragmentsOnCompositeTypesStep (s : SV) (_ : QueryDoc) (e : Event) : List RErr :=
   match e.p with
   | .inlineFragment f _ =>
     match s.type? f.typeCond with
